@@ -818,6 +818,42 @@ func c13Widths(r *run.Run) {
 		})
 }
 
+// c13WidthsExtreme: widths near and beyond the range of a Type 2 operand (the width operand is the
+// difference to nominalWidthX, a DICT number, so such widths are representable).
+func c13WidthsExtreme(r *run.Run) {
+	ws := []float64{0, 500, 31999.5, 32000, 32001, 32100, 32500, 32767, -32000, -32100, -32767}
+	r.Explore(explore.Config{Name: "C13.widths-extreme"},
+		"advance widths of simple fonts with 4 glyphs, widths [w1 w1 w2 w3] over {0, 500, 31999.5, 32000, 32001, 32100, 32500, 32767, -32000, -32100, -32767} (at and beyond the clamp of the path coordinates, up to the ends of the Type 2 number range; widths outside +-32767 are not in the domain): recovered to 16.16 precision by cff.Read and by the independent interpreter",
+		func(c *explore.Ctx) {
+			f := &cff.Font{FontInfo: c13Info(), Outlines: &cff.Outlines{Private: []*type1.PrivateDict{c13Priv(0)}, FDSelect: func(glyph.ID) int { return 0 }}}
+			w1 := ws[c.Choose(len(ws), "repeated width")]
+			sel := []float64{w1, w1, ws[c.Choose(len(ws), "third width")], ws[c.Choose(len(ws), "fourth width")]}
+			for i, w := range sel {
+				name := []string{".notdef", "A", "B", "C"}[i]
+				f.Glyphs = append(f.Glyphs, c13Glyph(name, w, i+1))
+			}
+			f.Encoding = cff.StandardEncoding(f.Glyphs)
+			c.Sample(func() any { return sel })
+			c.Nontrivial()
+			rf, g := c13Roundtrip(c, "extreme widths", f, sel)
+			if g == nil {
+				return
+			}
+			c13Compare(c, "extreme widths", f, g, sel)
+			if rf != nil && len(rf.Privates) == 1 && len(rf.CharStrings) == 4 {
+				p := rf.Privates[0]
+				for i := 0; i < 4; i++ {
+					ref, err := reft2.Interpret(rf.CharStrings[i], &reft2.Env{GlobalSubrs: rf.GlobalSubrs, LocalSubrs: p.LocalSubrs, DefaultWidthX: p.DefaultWidthX, NominalWidthX: p.NominalWidthX})
+					if err != nil {
+						c.Fail("C13.structure", "extreme widths / charstring", "glyph %d: %v", i, err)
+					} else if math.Abs(ref.Width-sel[i]) > 1.0/65536+1e-12 {
+						c.Fail("C13.width", "extreme widths / independent", "glyph %d: independent interpreter recovers width %v, want %v (widths %v, defaultWidthX %v, nominalWidthX %v)", i, ref.Width, sel[i], sel, p.DefaultWidthX, p.NominalWidthX)
+					}
+				}
+			}
+		})
+}
+
 func init() {
 	Register("C13", func(r *run.Run) {
 		r.Rule = "bounded exhaustive enumeration of cff.Font values; Read(Write(F)) compared field by field; the bytes walked by the independent CFF reader (INDEX offsets and minimal offSize, DICT operands, charset/encoding/FDSelect) and widths re-derived by the independent interpreter"
@@ -831,5 +867,6 @@ func init() {
 		c13Numbers(r)
 		c13DeltaArrays(r)
 		c13Widths(r)
+		c13WidthsExtreme(r)
 	})
 }
